@@ -14,6 +14,19 @@ CLAIMED = {
         technique="TLA+ executable specification + TLC exhaustive exploration + spec-to-code trace replay"),
 }
 
+CLAIMED["C19"] = dict(
+    category="model_checking",
+    text="TLC explores every bounded history of MAC/Write/Sum/Reset calls on one MAC object (8 algorithms x paddings x tag sizes x SM4 and an 8-byte toy cipher), with each reply computed from the TLA+ transcription of GB/T 15852.1; every transition is replayed against gmsm/cbcmac in three dispatch configurations. Final-block injectivity is checked exhaustively on 1- and 2-byte blocks and on all single-bit differences for 8/16-byte blocks of the definitions.",
+    design_ref="DESIGN.md section 4, C19",
+    note="Trusted: TLC, TLA+ transcription of GB/T 15852.1 algorithms 1-8 and SM4 (KAT-pinned), toy cipher mirrored in Go, replayer plumbing. Known finding D16 (CBCR left shift) is classified by a dedicated alternative expectation.",
+    technique="TLA+ executable specification + TLC history exploration + spec-to-code trace replay")
+CLAIMED["C01"] = dict(
+    category="model_checking",
+    text="TLC explores all bounded Write/Sum/Reset/Marshal/Unmarshal histories on two SM3 objects with chunk lengths at every 64-byte seam, one-shot lengths, and (len z, keyLen, entry point) KDF requests covering every len(z) mod 64 and every lane-count class; replies come from a bit-exact TLA+ SM3 (GB/T 32905 KATs asserted). Every transition is replayed on four SM3 tiers (AVX2, AVX, scalar asm, purego) and recorded random histories of the real objects are validated by TLC against the same HashObj actions.",
+    design_ref="DESIGN.md section 4, C01",
+    note="Trusted: TLC, the TLA+ SM3 (pinned by the standard's examples), replayer/recorder plumbing (binding guards in both directions each run). Bounded: messages <= ~1 KiB.",
+    technique="TLA+ executable specification + TLC history exploration + two-way trace conformance (replay and trace validation)")
+
 NOT_BUILT = "not built yet (in progress; see DESIGN.md section 9 build order)"
 NA = {}
 
